@@ -17,6 +17,7 @@ for seed in "$@"; do
   echo "patch_applies=yes" >> "$out"
   BASELINE_LOG=/tmp/seedconfirm_baseline.log nice -n 5 /verif/bin/baseline_off.sh $WT > /tmp/seedconfirm_base.out 2>&1
   echo "baseline_exit_with_change=$? ($(head -1 /tmp/seedconfirm_base.out))" >> "$out"
+  grep "NOT PASSING" /tmp/seedconfirm_base.out | head -5 >> "$out"
   place="crates/glaredb_rt_native/tests/seed_demo.rs"; args="-p glaredb_rt_native --test seed_demo"
   if [ -f "$seed/demo_place.txt" ]; then place="$(sed -n 1p "$seed/demo_place.txt")"; args="$(sed -n 2p "$seed/demo_place.txt")"; fi
   if [ "$place" = "none" ] || [ ! -f "$seed/demo.rs" ]; then echo "demo=not a stand-alone test file (see README); not re-run here" >> "$out"; else
